@@ -57,6 +57,29 @@ def strings_family(gen):
     return cases
 
 
+UTF8_ALPHABET = [0x61, 0x7f, 0x80, 0x9f, 0xa0, 0xa9, 0xbf, 0xc0, 0xc3, 0xdf, 0xe0, 0xe4, 0xed, 0xf0, 0xf4, 0xf5, 0xff]
+
+
+def utf8_shapes_family(gen, quick=True):
+    """Every byte string over an alphabet of UTF-8 class representatives up to length 3 (quick: a 12-byte
+    alphabet), plus random ones of length 4..7: lead bytes followed by ASCII, stray/missing continuations,
+    overlong and surrogate forms, out-of-range leads.  Decides between the string tags and the bytes tag."""
+    import itertools
+    alpha = UTF8_ALPHABET if not quick else [0x61, 0x80, 0xa0, 0xa9, 0xbf, 0xc3, 0xe0, 0xe4, 0xed, 0xf0, 0xf4, 0xff]
+    S = T("string")
+    cases = []
+    for L in (1, 2, 3):
+        for tup in itertools.product(alpha, repeat=L):
+            cases.append({"t": S, "v": hx(bytes(tup)), "tag": "utf8:len%d" % L})
+    for _ in range(400 if quick else 4000):
+        L = gen.rng.randint(4, 7)
+        b = bytes(gen.rng.choice(UTF8_ALPHABET) for _ in range(L))
+        cases.append({"t": S, "v": hx(b), "tag": "utf8:rand"})
+        if gen.rng.random() < 0.2:
+            cases.append({"t": Slice(IFACE), "v": [{"t": S, "v": hx(b)}, {"t": S, "v": hx(b)}], "tag": "utf8:iface"})
+    return cases
+
+
 MAPK = ["string", "int", "int8", "int16", "int32", "int64", "uint", "uint8", "uint16", "uint32", "uint64", "float32", "float64"]
 MAPV = MAPK + ["bool"]
 
@@ -79,6 +102,34 @@ def maps_family(gen):
                     vv = gen.value(vt, 4, None) if v != "iface" else {"t": T("int"), "v": str(gen.rng.randint(-5, 300))}
                     entries.append([kv, vv])
                 cases.append({"t": Map(kt, vt), "v": entries, "tag": "map:%s:%s" % (k, v)})
+    # values (and keys) that own storage: every entry must get its own (slices, pointers, maps, structs,
+    # interfaces, and arrays of those), two and three entries
+    I, S = T("int"), T("string")
+    st = Anon([("A", Slice(I), ""), ("P", Ptr(I), "")])
+    vts = [Slice(I), Slice(S), Ptr(I), Ptr(S), Map(S, I), st, Ptr(st), IFACE, Slice(Slice(I)),
+           Array(2, I), Array(2, Slice(I)), Array(2, Ptr(I)), Array(2, Map(S, I)), Array(2, st), Array(2, IFACE),
+           Array(2, Array(2, Slice(I))), Slice(Array(2, Ptr(S)))]
+    for vt in vts:
+        for kt in (I, S):
+            for n in (2, 3):
+                entries, seen = [], set()
+                tries = 0
+                while len(entries) < n and tries < 50:
+                    tries += 1
+                    kv = gen.value(kt, 4, None)
+                    if json.dumps(kv) in seen:
+                        continue
+                    seen.add(json.dumps(kv))
+                    if vt is IFACE:
+                        vv = {"t": Slice(I), "v": [str(gen.rng.randint(0, 99)) for _ in range(len(entries) + 1)]}
+                    else:
+                        vv = gen.value(vt, 1, None)
+                    entries.append([kv, vv])
+                cases.append({"t": Map(kt, vt), "v": entries, "tag": "mapv:%s" % vt["k"]})
+    for kt in (Ptr(I), Ptr(S), Array(2, I)):
+        entries = [[gen.value(kt, 1, None), str(i)] for i in range(3)]
+        if len({json.dumps(e[0]) for e in entries}) == 3 or kt["k"] == "ptr":
+            cases.append({"t": Map(kt, I), "v": entries, "tag": "mapk:%s" % kt["k"]})
     return cases
 
 
@@ -106,6 +157,18 @@ def times_family(gen):
         cases.append({"t": Slice(TT), "v": [sp, sp], "tag": "time:slice"})
         cases.append({"t": Reg("Times"), "v": {"T": sp, "PT": {"v": sp}}, "tag": "time:struct"})
         cases.append({"t": Slice(IFACE), "v": [{"t": TT, "v": sp}], "tag": "time:iface"})
+    # the same under local zones with a non-zero offset (time.Local is replaced while the case runs):
+    # local times are written without 'Z' and must come back as the same instant
+    tzs = [{"unix": "0", "ns": 0, "zone": "local"}, {"unix": "3600", "ns": 0, "zone": "local"},
+           {"unix": "45296", "ns": 5000, "zone": "local"}, {"unix": "-28800", "ns": 0, "zone": "local"},
+           {"unix": "1600000000", "ns": 0, "zone": "local"}, {"unix": "1599955200", "ns": 0, "zone": "local"},
+           {"unix": "1599955200", "ns": 120000000, "zone": "local"}, {"unix": "86399", "ns": 999999999, "zone": "local"},
+           {"unix": "1600000000", "ns": 1, "zone": "utc"}, {"unix": "1600000000", "ns": 0, "zone": "fixed:3600"}]
+    for off in (28800, -18000, 19800):
+        for sp in tzs:
+            cases.append({"t": TT, "v": sp, "tz": off, "tag": "timetz:top"})
+            cases.append({"t": Reg("Times"), "v": {"T": sp, "PT": {"v": sp}}, "tz": off, "tag": "timetz:struct"})
+            cases.append({"t": Slice(IFACE), "v": [{"t": TT, "v": sp}], "tz": off, "tag": "timetz:iface"})
     return cases
 
 
@@ -283,6 +346,14 @@ def sequences_family(gen, n):
                 x = pool[st[1]]()
                 seq.append({"op": "encode", "t": x["t"], "v": x["v"]})
         cases.append({"seq": seq, "t": T("string"), "v": "", "tag": "seq:encoder"})
+        # the same script through NewEncoder(w), with ResetBuffer between some values: what reaches w must be
+        # the same stream (ResetBuffer is invisible to the model: it is not a step)
+        wseq = []
+        for st in seq:
+            wseq.append(st)
+            if st["op"] == "encode" and gen.rng.random() < 0.5:
+                wseq.append({"op": "resetbuffer"})
+        cases.append({"seq": wseq, "writer": True, "t": T("string"), "v": "", "tag": "seqw:writer"})
     return cases
 
 
